@@ -107,7 +107,15 @@ func TestEngine(t *testing.T) {
 			}
 			plan := def.Gen(seed, i, tier)
 			progress(fmt.Sprintf("%s seed=%d index=%d", check, seed, i))
+			if os.Getenv("VERIF_RACE") != "" {
+				// the race detector reports on stderr; mark which plan is running and keep it for replay
+				pf := savePlan(out, plan, "-race")
+				fmt.Fprintf(os.Stderr, "RACE-START %d %s\n", i, pf)
+			}
 			res, _ := Execute(t, plan, def.Oracle, def.Final, false)
+			if os.Getenv("VERIF_RACE") != "" {
+				fmt.Fprintf(os.Stderr, "RACE-END %d\n", i)
+			}
 			line := outLine{RunResult: res}
 			res.SeamKinds = nil
 			if len(res.Violations) > 0 || res.Infra != "" {
